@@ -53,7 +53,8 @@ prop("C02", [("R05", sched.r05_select), ("R02", sched.r02_sched_agree), ("R03", 
      [SCHED_MODEL])
 
 prop("C03", [("R06", life.r06_life), ("R07", life.r07_status), ("R08", life.r08_advance), ("R05", sched.r05_select),
-             ("R03", sched.r03_r09_step)],
+             ("R03", sched.r03_r09_step), ("R02", sched.r02_sched_agree), ("R10", life.r10_stall), ("R10b", life.r10b_mustconnect),
+             ("R11", connect.r11_r12_connect)],
      "Static: (R06) life-cycle calls occur in the order initialize/connect/validate/update/finalize on every path of Composition, "
      "each followed by a status check, finalize post-dominates the loop, adapters are held in a set and finalized at one call site, "
      "SDK wrappers call their hook exactly once; (R07) status tables of wrappers, hooks and driver agree (FINISHED kept, accepted, "
